@@ -226,14 +226,40 @@ def run(ctx):
     if fi is None:
         raise AnalysisError("Region.write_reg missing")
     al = pixeldict_aliases(fi.node)
-    calls = [c for c in walk_no_nested(fi.node) if isinstance(c, ast.Call)
+    import copy as _copy
+
+    def _subst(e, mp):
+        if e is None or not mp:
+            return e
+        e = _copy.deepcopy(e)
+
+        class T(ast.NodeTransformer):
+            def visit_Name(self, n):
+                return _copy.deepcopy(mp[n.id]) if n.id in mp else n
+        return T().visit(e)
+    sites = [(c, c, {}) for c in walk_no_nested(fi.node)
+             if isinstance(c, ast.Call)
              and prog.dotted(mod, c.func) == "healpy.boundaries"]
-    ctx.floor("C12-R4", len(calls), 1, "calls resolving to healpy.boundaries")
-    for c in calls:
+    # ... or in a private method called once per pixel (parameters are
+    # replaced by the arguments of that call)
+    for hc in walk_no_nested(fi.node):
+        if isinstance(hc, ast.Call) and isinstance(hc.func, ast.Attribute) \
+                and norm(hc.func.value) == "self" \
+                and hc.func.attr in ci.methods and hc.func.attr != "write_reg":
+            h = ci.methods[hc.func.attr]
+            hps = [p_ for p_ in h.params if p_ != "self"]
+            mp = dict(zip(hps, hc.args))
+            mp.update({k.arg: k.value for k in hc.keywords if k.arg})
+            for c in walk_no_nested(h.node):
+                if isinstance(c, ast.Call) and \
+                        prog.dotted(mod, c.func) == "healpy.boundaries":
+                    sites.append((c, hc, mp))
+    ctx.floor("C12-R4", len(sites), 1, "calls resolving to healpy.boundaries")
+    for c, anchor, mp in sites:
         # enclosing loops
         loops = [lp for lp in walk_no_nested(fi.node)
                  if isinstance(lp, ast.For) and
-                 any(x is c for x in ast.walk(lp))]
+                 any(x is anchor for x in ast.walk(lp))]
         ploop = dloop = None
         for lp in loops:
             o = levelset_owner(lp.iter, al)
@@ -243,8 +269,8 @@ def run(ctx):
             ctx.unknown_site("C12-R4", fi, norm(c), c)
             continue
         pname = norm(ploop.target)
-        nside = arg_or_kw(c, 0, "nside")
-        pix = arg_or_kw(c, 1, "pix")
+        nside = _subst(arg_or_kw(c, 0, "nside"), mp)
+        pix = _subst(arg_or_kw(c, 1, "pix"), mp)
         ok_nside = nside is not None and norm(nside).replace(" ", "") in (
             "2**%s" % norm(lvl), "1<<%s" % norm(lvl))
         ctx.check("C12-R4", fi, "nside of " + norm(c), ok_nside,
